@@ -42,18 +42,21 @@ pub struct MemLoader<'a> {
 }
 
 impl MemLoader<'_> {
-    fn rel<'b>(&self, loc: &'b Locator) -> Option<&'b str> {
-        loc.url().as_str().strip_prefix(self.base)
+    /// The path (relative to the base, percent-encoding decoded) a locator denotes.
+    fn rel(&self, loc: &Locator) -> Option<String> {
+        let base = url::Url::parse(self.base).ok()?.to_file_path().ok()?;
+        let p = loc.url().to_file_path().ok()?;
+        p.strip_prefix(&base).ok()?.to_str().map(|s| s.to_string())
     }
 }
 
 impl Loader<MemErr> for MemLoader<'_> {
     fn is_valid(&mut self, loc: &Locator) -> bool {
-        self.rel(loc).map(|p| self.files.contains_key(p)).unwrap_or(false)
+        self.rel(loc).map(|p| self.files.contains_key(&p)).unwrap_or(false)
     }
     fn load(&mut self, loc: &Locator) -> Result<String, MemErr> {
         self.rel(loc)
-            .and_then(|p| self.files.get(p))
+            .and_then(|p| self.files.get(&p))
             .cloned()
             .ok_or_else(|| MemErr::Io(format!("no such file {loc}")))
     }
